@@ -21,7 +21,7 @@ for d in $V/seeded/$GLOB/; do
   if ! (cd /repo && go build ./... && go test -count=1 ./... >/tmp/seed_test.log 2>&1); then tests="repo-tests-FAIL"; else tests="repo-tests-pass"; fi
   res=""
   for c in $prop $also; do
-    out=$(cd $V && timeout 1500 bin/vcheck $c $TIER 2>&1); rc=$?
+    out=$(cd $V && timeout 600 bin/vcheck $c $TIER 2>&1); rc=$?
     n=$(echo "$out" | grep -c '^VIOLATION')
     if [ $rc -eq 1 ] && [ $n -gt 0 ]; then res="$res $c:DETECTED($n)"; else res="$res $c:missed(rc=$rc)"; fi
   done
